@@ -409,6 +409,8 @@ class Runner:
             self.coll_writes[coll] += 1
             self.last["name"] = name
             self.last["location"] = loc
+            self.posted = getattr(self, "posted", collections.defaultdict(list))
+            self.posted[coll].append(name)
         else:
             self.stats["noack:write"] += 1
         return {coll}
@@ -465,7 +467,9 @@ class Runner:
                 hdrs = [dav.XML_CT]
         else:
             rt = {"ext-calendar": "<D:collection/><C:calendar/>", "ext-addressbook": "<D:collection/><A:addressbook/>", "ext-plain": "<D:collection/>"}[kind]
-            body = dav.mkcol_body("D:mkcol", [(P_RT, ("xml", rt))] + props)
+            allp = list(props)
+            allp.insert(min(int(st.get("rt_pos", 0)), len(allp)), (P_RT, ("xml", rt)))  # clients list resourcetype anywhere
+            body = dav.mkcol_body("D:mkcol", allp, one_prop=bool(st.get("one_prop")))
             hdrs = [dav.XML_CT]
         r = self.req(st["fe"], method, coll + ("/" if st.get("slash") else ""), hdrs, body)
         ack = r.status in (200, 201)
@@ -513,6 +517,11 @@ class Runner:
         sets = [tuple(p) for p in st.get("set", [])]
         removes = list(st.get("remove", []))
         instr = [tuple(i) for i in st.get("instr", [])]
+        mc0 = self.model.colls.get(coll)
+        if any(it[0] == "set" and it[1] == P_RT for it in instr):
+            # DAV:resourcetype set to the type the collection already has
+            rtx = {"calendar": "<D:collection/><C:calendar/>", "addressbook": "<D:collection/><A:addressbook/>"}.get(mc0.kind if mc0 else "other", "<D:collection/>")
+            instr = [("set", P_RT, ("xml", rtx)) if (it[0] == "set" and it[1] == P_RT) else it for it in instr]
         if instr:
             # instructions in document order (RFC 4918 9.2): the model applies them in that order
             body = dav.proppatch_body_ordered(instr)
@@ -535,7 +544,9 @@ class Runner:
                     continue
                 if mc is None:
                     self.violation("content", "proppatch-ack-missing", f"PROPPATCH on missing {coll} acknowledged")
-                if it[0] == "set":
+                if it[0] == "set" and k == P_RT:
+                    self.stats["ack:retype-same"] += 1  # same type as before: nothing changes in the model
+                elif it[0] == "set":
                     mc.props[k] = it[2]
                     self.stats["ack:propset"] += 1
                 else:
@@ -1665,11 +1676,19 @@ class Runner:
         body = body_of(st)
         fe = st["fe"]
         mc = self.model.colls.get(coll)
+        if isinstance(name, dict):
+            # the k-th member the server itself named (created by POST) and that still exists
+            live = [n for n in getattr(self, "posted", {}).get(coll, []) if mc is not None and n in mc.members]
+            if not live:
+                self.last = {"op": "C14", "ack": False, "coll": coll, "name": None}
+                return set()
+            name = live[name.get("posted", 0) % len(live)]
+            self.stats["c14:posted-target"] += 1
         self.last = {"op": "C14", "ack": False, "coll": coll, "name": name}
         if mc is None:
             return set()
         path = self.member_path(coll, name)
-        is_cal = name.endswith(".ics")
+        is_cal = name.endswith(".ics") or st["ctype"].startswith("text/calendar")
         root = "VCALENDAR" if is_cal else "VCARD"
         tag0 = self.read_tags(coll, fe)[P_CTAG]
         n0 = self.commit_count(coll)
